@@ -132,7 +132,11 @@ def main():
         files = [f for f in glob.glob(os.path.join(pkg, '*.py')) if os.path.basename(f) not in ('prologParser.py', 'prologLexer.py', 'prologVisitor.py', 'prologListener.py')]
         _, e1, e2, sched_seed = entry
         res = [None, None]
-        baton = Baton(2, files, seed=sched_seed, p=0.01, p_by_file={C.__file__: 0.3, os.path.abspath(C.__file__): 0.3}, max_points=2000000)
+        # one file of the package is the focus of this pair: switches are frequent there (0.3 per line) and rare elsewhere
+        focus = os.path.join(pkg, ('compiler.py', 'yp_generator.py', 'yp_prolog_visitor.py')[sched_seed % 3])
+        baton = Baton(2, files, seed=sched_seed, p=0.01, p_by_file={focus: 0.3}, max_points=4000000)
+        stats.setdefault('focus', {})
+        stats['focus'][os.path.basename(focus)] = stats['focus'].get(os.path.basename(focus), 0) + 1
         shared_err = io.StringIO()
         real_err = sys.stderr
         sys.stderr = shared_err
